@@ -88,11 +88,15 @@ func ckiName(i int) string {
 	return fmt.Sprintf("%d-byte-value", len(ckiForms[i]))
 }
 
-type cfg struct{ ver, mod, exp, pr, gd, ll, cr, us, so, ck int }
+type cfg struct{ ver, mod, exp, pr, gd, ll, cr, us, so, ck, mt int }
+
+// modTops: the most significant modulus byte — top bit set (what rsa.GenerateKey yields), clear (a modulus a few
+// bits shorter than KeySize = 8*len, which Size()*8 still reports), and 0x01.
+var modTops = []byte{0x81, 0x7F, 0x01}
 
 func (f cfg) String() string {
-	return fmt.Sprintf("version=0x%x modulus=%dB exponent=%d primes=(%d,%d)B deviceId=%s lastLogonTicks=%d creationTicks=%d usage=%d source=%d customKeyInfo=%x",
-		versions[f.ver], modLens[f.mod], exps[f.exp], primeLs[f.pr].p1, primeLs[f.pr].p2, guids[f.gd].ToFormatD(), ticks[f.ll], ticks[f.cr], usages[f.us], sources[f.so], ckiForms[f.ck])
+	return fmt.Sprintf("version=0x%x modulus=%dB(first byte %02x) exponent=%d primes=(%d,%d)B deviceId=%s lastLogonTicks=%d creationTicks=%d usage=%d source=%d customKeyInfo=%x",
+		versions[f.ver], modLens[f.mod], modTops[f.mt], exps[f.exp], primeLs[f.pr].p1, primeLs[f.pr].p2, guids[f.gd].ToFormatD(), ticks[f.ll], ticks[f.cr], usages[f.us], sources[f.so], ckiForms[f.ck])
 }
 
 func configs(c *vf.Ctx) []cfg {
@@ -112,7 +116,7 @@ func configs(c *vf.Ctx) []cfg {
 				ver: r.Choose(len(versions), "version"), mod: r.Choose(len(modLens), "modulus"), exp: r.Choose(len(exps), "exponent"),
 				pr: r.Choose(len(primeLs), "primes"), gd: r.Choose(len(guids), "deviceId"), ll: r.Choose(len(ticks), "lastLogon"),
 				cr: r.Choose(len(ticks), "creation"), us: r.Choose(len(usages), "usage"), so: r.Choose(len(sources), "source"),
-				ck: r.Choose(len(ckiForms), "customKeyInfo"),
+				ck: r.Choose(len(ckiForms), "customKeyInfo"), mt: r.Choose(len(modTops), "modulus top byte"),
 			}
 			r.ObserveS(fmt.Sprint(f))
 			add(f)
@@ -133,7 +137,9 @@ func configs(c *vf.Ctx) []cfg {
 		for m := range modLens {
 			for e := range exps {
 				for p := range primeLs {
-					add(cfg{ver: v, mod: m, exp: e, pr: p})
+					for t := range modTops {
+						add(cfg{ver: v, mod: m, exp: e, pr: p, mt: t})
+					}
 				}
 			}
 		}
@@ -155,6 +161,7 @@ func build(f cfg) (*built, error) {
 		Modulus:  enum.Counter(modLens[f.mod], 0x81),
 		KeySize:  uint32(modLens[f.mod] * 8),
 	}
+	mat.Modulus[0] = modTops[f.mt]
 	if n := primeLs[f.pr].p1; n > 0 {
 		mat.Prime1 = enum.Counter(n, 0x11)
 	}
